@@ -99,7 +99,9 @@ def work_chunk(args):
             agg["unfinished"] = agg.get("unfinished", 0) + 1     # a violation was found: stop exploring
             continue
         scn = scenario_for(prop, verif_seed, i, tier)
+        t_run = time.time()
         res = run_one(prop, scn)
+        t_run = time.time() - t_run
         if "harness_error" in res:
             agg["harness_errors"].append({"index": i, "run_seed": scn["run_seed"], "error": res["harness_error"]})
             continue
@@ -108,7 +110,7 @@ def work_chunk(args):
         agg["logsum"] = (agg["logsum"] + int(res["log_digest"], 16) * (2 * i + 1)) % (1 << 64)
         if os.environ.get("DSIM_TRACE_DIGESTS"):       # debugging aid: one line per run (index, log digest)
             with open(os.environ["DSIM_TRACE_DIGESTS"], "a") as f:
-                f.write("%s %d %s\n" % (pid, i, res["log_digest"]))
+                f.write("%s %d %s %.2f\n" % (pid, i, res["log_digest"], t_run))
         for k, v in res.get("stats", {}).items():
             agg["stats"][k] = agg["stats"].get(k, 0) + v
         if res.get("nontrivial"):
